@@ -11,3 +11,4 @@ import WowVerif.Props.C16
 #print axioms Wv.Blp.pack4_length
 #print axioms Wv.Blp.header_roundtrip
 #print axioms Wv.Blp.header_size
+#print axioms Wv.Blp.header_parse_normal
